@@ -28,7 +28,7 @@ REQUIRED = {"select.deselected_not_called": {"quick": 3000, "thorough": 150000},
             "select.container_with_selected_not_skipped": {"quick": 500, "thorough": 25000},
             "local.unselected_run_emits_nothing": {"quick": 3000, "thorough": 150000},
             "nontrivial_cases": {"quick": 300, "thorough": 15000}}
-REQUIRED_SEEN = {"second_selection_given_as": ["one_string_of_blank_separated_terms", "list_of_terms"], "tree_shape": ["rule_without_scenarios_in_a_feature_with_scenarios"], "outline_tag_placeholder": ["<t>", "<row.index>", "<examples.index>", "<row.id>"], "dialect": ["v1", "v2", "none"],
+REQUIRED_SEEN = {"second_selection_given_as": ["one_string_of_blank_separated_terms", "list_of_terms"], "tree_shape": ["rule_without_scenarios_in_a_feature_with_scenarios"], "outline_tag_placeholder": ["<t>", "<row.index>", "<examples.index>", "<row.id>", "column_heading_with_punctuation"], "expression_shape": ["bare_wildcard_over_untagged_elements"], "dialect": ["v1", "v2", "none"],
                  "tag_name_class": ["contains_operator_word", "contains_hash", "non_ascii_letters"], "outline_name_schema": ["{name}", "{examples.name}"],
                  "process_run_shape": ["toml_tags_plus_command_line", "ini_tags_plus_command_line", "wip_plus_tags"]}
 NSHARDS = {"quick": 16, "thorough": 16}
@@ -270,6 +270,23 @@ def run(spec, mon):
             case["cfg"]["tags"] = ast
             case["args"] = args + [a for a in case["args"] if not a.startswith("--tags")]
             mon.seen("tag_name_class", "contains_operator_word")
+        if i % 9 == 1:
+            # the column that feeds the parametrised outline tags has a heading with punctuation (@<first-name>, @p.<price/unit>)
+            gen2 = dict(gen, tag_columns=["first-name", "price/unit", "a+b", "n°"], p_param_tag=0.9, p_outline=0.6)
+            case = RB.gen_case(rng, gen=gen2, p_stop=0.1, p_dry=0.15, p_noskipped=0.5)
+            if any(("<%s>" % c) in repr(case["program"]["features"]) for c in gen2["tag_columns"]):
+                mon.seen("outline_tag_placeholder", "column_heading_with_punctuation")
+        if i % 9 == 6:
+            # sparsely tagged trees (many elements without ANY effective tag) and the bare wildcard: "@*" = has some tag,
+            # "not @*" = has no tag at all
+            gen2 = dict(gen, p_tag=0.12, p_param_tag=0.1, p_reserved_tag=0.0, p_wip=0.0)
+            case = RB.gen_case(rng, gen=gen2, p_stop=0.1, p_dry=0.15, p_noskipped=0.5)
+            star = ["glob", "*"]
+            ast, text = rng.choice([(star, "@*"), (["not", star], "not @*"), (["or", ["lit", "a"], ["not", star]], "@a or not @*"),
+                                    (["and", star, ["not", ["lit", "b"]]], "* and not b"), (["not", star], "not *")])
+            case["cfg"]["tags"] = ast
+            case["args"] = ["--tags=%s" % text] + [a for a in case["args"] if not a.startswith("--tags")]
+            mon.seen("expression_shape", "bare_wildcard_over_untagged_elements")
         if i % 9 == 7:
             # issue-reference style tag names with a '#' inside (@issue#12), next to ordinary tags on the same line
             alt = ["issue#12", "c#", "a", "b", "bug#7.x"]
